@@ -17,7 +17,8 @@ VARIANTS = ("base", "send", "rc")
 
 def main():
     chk = vf.Check("C12")
-    cases, res = vf.mc_cases(chk, "MC_C12", actions=["MakeTraitFnSig"], workers=4)
+    thorough = vf.tier() == "thorough"
+    cases, res = vf.mc_cases(chk, "MC_C12", cfg_edits=({"MoreRets = FALSE": "MoreRets = TRUE"} if thorough else None), actions=["MakeTraitFnSig"], workers=4)
     crate = vf.Crate(os.path.join(chk.work, "crate"), "c12cases", deps=["vt", "async-trait"])
     crate.prelude = asyncprogs.PRELUDE
     for c in cases:
@@ -67,7 +68,7 @@ def main():
     chk.cov["distinct_nontrivial"] = sum(1 for e in events if e["obs"]["expanded"])
     chk.cov["negative_probes_rejected"] = sum((not e["obs"]["w_send"]) + (not e["obs"]["w_nonsend_body"]) for e in events)
     chk.cov["rule"] = ("{fn, mod, entraited trait (Self), static dependency inversion, and with async_trait: trait (Self / ref), static / dyn "
-                       "dependency inversion; the attribute written bare and as `async_trait(?Send)`} x return {omitted, owned, borrowed from deps, borrowed from an argument, generic} x ?Send x {plain, with the `mockall` option (fn / mod / trait)}; three "
+                       "dependency inversion; the attribute written bare and as `async_trait(?Send)`} x return {omitted, owned, borrowed from deps, borrowed from an argument, generic" + (", tuple, Result<u8, String>, &'static str" if thorough else "") + "} x ?Send x {plain, with the `mockall` option (fn / mod / trait)}; three "
                        "renderings per input (Output witness + run, Send-requiring generic caller, !Send body); non-trivial = expanded")
     chk.cov["exhaustive"] = True
     chk.cov["build_iterations"] = iters
